@@ -285,6 +285,26 @@ def model_index(data: Any) -> dict[str, tuple[str, str, Any]]:
     return out
 
 
+def _example_literal(doc: dict, schema: Any, prop: Any, package: str) -> str | None:
+    """A concrete Python expression for a required constructor argument (only simple kinds)."""
+    al = alternatives(doc, schema)
+    a = al[0]
+    k = a["k"]
+    if k == "int":
+        return "7"
+    if k == "number":
+        return "1.5"
+    if k == "bool":
+        return "True"
+    if k == "str" and a.get("format") is None:
+        return "'req'"
+    if k == "null":
+        return "None"
+    if k == "const":
+        return repr(a["value"])
+    return None
+
+
 HEADER = '''"""Generated E3 harness (from the skeleton document; do not edit)."""
 import sys
 from vlib.e3_support import Resp, RecClient, drive, is_plain_json, pick, roundtrip_ok
@@ -321,7 +341,57 @@ def model_harness(doc: dict, package: str, data: Any, depth_max: int = 2, list_m
         src.append(func_source(fn2, g, body, f"tristate_ok({cls}, build(), build(), {names!r}, UNSET)"))
         funcs.append(fn2)
         meta[name] = {"class": cls, "args": len(g.args), "schema_keys": sorted(schema.keys()) if isinstance(schema, dict) else []}
-    src.insert(2, "from vlib.e3_support import tristate_ok")
+        # C11: annotations are truthful for every decoded instance
+        fn3 = f"ann_{cls}"
+        src.append(func_source(fn3, g, body, f"annotations_ok({cls}, build(), {names!r}, _NS)"))
+        funcs.append(fn3)
+        # C13: declared defaults
+        merged = alts[0]["schema"]
+        expected, req_kwargs, ok = [], [], True
+        for p in props:
+            ps = deref(doc, (merged.get("properties") or {}).get(p.name, {}))
+            if isinstance(ps, dict) and "default" in ps:
+                expected.append((p.name, str(p.python_name), ps["default"]))
+            elif p.required:
+                lit = _example_literal(doc, ps, p, package)
+                if lit is None:
+                    ok = False
+                    break
+                req_kwargs.append((str(p.python_name), lit))
+        if expected and ok:
+            fn4 = f"dflt_{cls}"
+            kw = "{" + ", ".join(f"{k!r}: {v}" for k, v in req_kwargs) + "}"
+            src.append(f'def {fn4}() -> bool:\n    """\n    post: _\n    """\n    return defaults_ok({cls}, {kw}, {expected!r})\n')
+            funcs.append(fn4)
+        # C14: enum / const membership
+        for p in props:
+            ps = (merged.get("properties") or {}).get(p.name, {})
+            al = alternatives(doc, ps)
+            kinds = [a for a in al if a["k"] in ("enum", "const")]
+            if len(kinds) != 1 or any(a["k"] not in ("enum", "const", "null") for a in al):
+                continue
+            vals = kinds[0]["values"] if kinds[0]["k"] == "enum" else [kinds[0]["value"]]
+            near = []
+            for v in vals:
+                if isinstance(v, str):
+                    near += [v.upper() if v.upper() != v else v.lower(), v + " ", "x" + v]
+                else:
+                    near += [v + 1000, str(v)]
+            near += ["", 0, True] if isinstance(vals[0], str) else [1.5, "1"]
+            cands = list(vals) + [c for c in near if all(not (c == v and type(c) is type(v)) for v in vals)]
+            gb = Gen(doc, 0, 0, 1)
+            base_lines = ["    def build():"]
+            try:
+                gb.emit_object({**merged, "properties": {k: v for k, v in (merged.get("properties") or {}).items() if k in (merged.get("required") or []) and k != p.name}, "additionalProperties": False}, base_lines, "        ", "t", 0, True)
+            except SkeletonError:
+                continue
+            base_lines.append("        return t")
+            ci = gb.arg("cand", "int", f"0 <= $ < {len(cands)}")
+            fn5 = f"memb_{cls}_{p.python_name}"
+            src.append(func_source(fn5, gb, base_lines, f"membership_ok({cls}, build(), {p.name!r}, pick({tuple(cands)!r}, {ci}), {ci} < {len(vals)}, {str(p.python_name)!r})"))
+            funcs.append(fn5)
+    src.insert(2, "from vlib.e3_support import annotations_ok, defaults_ok, membership_ok, tristate_ok")
+    src.insert(3, f"import {package}.models as _models\nimport datetime, uuid, typing\n_NS = dict(vars(_models), datetime=datetime, UUID=uuid.UUID, Unset=Unset, **vars(typing))")
     return "\n".join(src) + "\n", funcs, meta
 
 
@@ -694,7 +764,7 @@ def probe_unregistered_status() -> bool:
 PROBES = {"unregistered_status": probe_unregistered_status}
 
 
-def run(family: str, skeleton: str, prefixes: list[str], timeout: int = 90, config: dict | None = None, known: list | None = None, tier: str = "quick", parallel: int = 8, replay_func: str = "vlib.e3:replay", bounds: dict | None = None, **_: object) -> dict:
+def run(family: str, skeleton: str, prefixes: list[str], include_unregistered: bool = False, timeout: int = 90, config: dict | None = None, known: list | None = None, tier: str = "quick", parallel: int = 8, replay_func: str = "vlib.e3:replay", bounds: dict | None = None, **_: object) -> dict:
     """One obligation = one skeleton document: regenerate the client with the real generator, build the schema-directed
     harness, run every condition whose name starts with one of `prefixes` under CrossHair."""
     import time
@@ -711,7 +781,7 @@ def run(family: str, skeleton: str, prefixes: list[str], timeout: int = 90, conf
         pr = PROBES.get(e.get("class"))
         if pr is not None and pr():
             live.append(e)
-    UNREGISTERED_STATUS = not any(e["class"] == "unregistered_status" for e in live)
+    UNREGISTERED_STATUS = include_unregistered and not any(e["class"] == "unregistered_status" for e in live)
     docs = sk.model_skeletons() if family == "model" else sk.endpoint_skeletons()
     d = docs[skeleton]
     root = gen.scratch("verif-e3-")
